@@ -495,11 +495,37 @@ func RuleDCheckFirst(c *core.Ctx) {
 				}
 			}
 		}
+		// no stage before the checker changes what the checker is going to look at:
+		// the day's openings, transactions, assertions and closings
+		for _, st := range first.stages[:idx] {
+			for _, f := range st.funcs() {
+				core.EachInstr(f, func(ins ssa.Instruction) {
+					sto, ok := ins.(*ssa.Store)
+					if !ok {
+						return
+					}
+					fa, ok := sto.Addr.(*ssa.FieldAddr)
+					if !ok {
+						return
+					}
+					fv := core.FieldOf(fa)
+					if fv == nil || fv.Pkg() == nil || fv.Pkg().Path() != pkgJournal {
+						return
+					}
+					switch fv.Name() {
+					case "Openings", "Transactions", "Assertions", "Closings":
+						if owner := p.Field(pkgJournal, "Day", fv.Name()); owner == fv {
+							bad = "stage " + st.name() + " assigns Day." + fv.Name() + " (" + p.Pos(sto.Pos()) + ") before the checker has seen the day: the checker judges a different journal than the one that was loaded"
+						}
+					}
+				})
+			}
+		}
 		if bad != "" {
 			c.Ob(rule, key, first.call.Pos(), fnName, core.Violated, bad)
 			continue
 		}
-		c.Ob(rule, key, first.call.Pos(), fnName, core.Discharged, fmt.Sprintf("checker is stage %d of the first Process call; only day/price callbacks precede it", idx+1))
+		c.Ob(rule, key, first.call.Pos(), fnName, core.Discharged, fmt.Sprintf("checker is stage %d of the first Process call; only day/price callbacks precede it, none of which assigns the day's directives", idx+1))
 	}
 	c.Floor(rule, 6)
 }
